@@ -787,6 +787,9 @@ class GoExec:
             return x.concrete
         if self.tt.kind(tid) == 'iface':
             return x
+        if self.tt.kind(tid) == 'ptr':
+            # interfaces holding pointers are identified with the pointer (see box): a non-nil interface holds a non-nil pointer
+            return PtrV(x.ref, self.tt[tid]['e'])
         v = self.lay.fresh(tid, 'unbox')
         for w in self.lay.wf(v, tid): st.assume(w)
         return v
